@@ -7,7 +7,8 @@
    (parse_function_source, the body parser, the source printer, the name store). *)
 From Coq Require Import String List ZArith Bool.
 Require Import Blots.Num Blots.gen.Builtins Blots.Ast Blots.Value Blots.Outcome Blots.Json.
-Require Import Blots.proofs.ValueInd Blots.proofs.JsonMaps Blots.proofs.JsonRT Blots.proofs.JsonEcho.
+Require Import Blots.JsonText.
+Require Import Blots.proofs.ValueInd Blots.proofs.JsonMaps Blots.proofs.JsonRT Blots.proofs.JsonEcho Blots.proofs.JsonTextRT.
 Import ListNotations.
 
 (* to_value (from_value v) = v structurally (numbers bit for bit, strings and keys byte for byte,
@@ -108,6 +109,70 @@ Check C06_cli_echo_non_object : forall pfs pbody emit nameof d name,
   json_nums_ok d = true -> json_no_reserved pfs (sj_build d) = true ->
   cli_echo pfs pbody emit nameof d "value_1" name = Ok (JObj [(name, jcanon d)]).
 Print Assumptions C06_cli_echo_non_object.
+
+(* ---- text level ---- *)
+(* strings and keys: whatever byte string is printed (serde_json's escape table) is read back
+   byte for byte - quotes, backslashes, control characters, DEL, every UTF-8 sequence *)
+Theorem C06_string_text_roundtrip : forall s rest,
+  parse_str (escape_str s ++ String QUOTE rest) = Some (s, rest).
+Proof. exact parse_str_escape. Qed.
+Check C06_string_text_roundtrip : forall s rest,
+  parse_str (escape_str s ++ String QUOTE rest) = Some (s, rest).
+Print Assumptions C06_string_text_roundtrip.
+
+(* number tokens: the scanner recovers exactly the token that was written (sign, integer digits,
+   fraction, exponent), for every well-formed token *)
+Theorem C06_number_token_roundtrip : forall t rest,
+  tok_wf t = true -> no_cont rest = true -> scan_number (render_tok t ++ rest) = Some (t, rest).
+Proof. exact scan_render. Qed.
+Check C06_number_token_roundtrip : forall t rest,
+  tok_wf t = true -> no_cont rest = true -> scan_number (render_tok t ++ rest) = Some (t, rest).
+Print Assumptions C06_number_token_roundtrip.
+
+(* numbers: integers in u64 / i64 range exactly; a finite double exactly PROVIDED the library
+   conversions satisfy the two hypotheses (ryu writes a well-formed float token; reading it gives
+   the double back).  For the build shipped in /repo the second hypothesis is FALSE (below). *)
+Theorem C06_number_text_roundtrip : forall fmt_pieces float_of_tok,
+  (forall x, is_finite x = true -> tok_wf (fmt_pieces x) = true /\ tok_is_float (fmt_pieces x) = true) ->
+  (forall x, is_finite x = true -> float_of_tok (fmt_pieces x) = Some x) ->
+  forall n rest, jnum_text_ok n = true -> no_cont rest = true ->
+  parse_number float_of_tok (render_tok (tok_of_jnumber fmt_pieces n) ++ rest) = Some (n, rest).
+Proof. exact parse_print_number. Qed.
+Check C06_number_text_roundtrip : forall fmt_pieces float_of_tok,
+  (forall x, is_finite x = true -> tok_wf (fmt_pieces x) = true /\ tok_is_float (fmt_pieces x) = true) ->
+  (forall x, is_finite x = true -> float_of_tok (fmt_pieces x) = Some x) ->
+  forall n rest, jnum_text_ok n = true -> no_cont rest = true ->
+  parse_number float_of_tok (render_tok (tok_of_jnumber fmt_pieces n) ++ rest) = Some (n, rest).
+Print Assumptions C06_number_text_roundtrip.
+
+(* the statement for whole documents (kept as a definition until proved): under the same two
+   hypotheses every document with in-range numbers and at most 127 nested containers is read
+   back from its printed text *)
+Definition C06_json_text_roundtrip_full : Prop :=
+  forall fmt_pieces float_of_tok,
+  (forall x, is_finite x = true -> tok_wf (fmt_pieces x) = true /\ tok_is_float (fmt_pieces x) = true) ->
+  (forall x, is_finite x = true -> float_of_tok (fmt_pieces x) = Some x) ->
+  forall j, json_text_ok j = true -> (jdepth j <= 127)%nat ->
+  json_from_str float_of_tok (jprint fmt_pieces j) = Some j.
+
+(* ---- refutations at the text level (known findings C06-F17, C06-F31) ---- *)
+(* F17: the number conversion shipped in /repo reads 9007199254740991.0 (= 2^53-1, a double) as
+   2^53-2; so it does not satisfy the round-trip hypothesis, whatever ryu prints elsewhere *)
+Lemma C06_shipped_number_parse_refuted :
+  render_tok tok_2p53m1 = "9007199254740991.0"%string /\
+  sj_float_of_tok tok_2p53m1 = Some (num_of_bits 0x433ffffffffffffe) /\
+  num_of_Z 9007199254740991 = num_of_bits 0x433fffffffffffff /\
+  num_of_bits 0x433ffffffffffffe <> num_of_bits 0x433fffffffffffff.
+Proof. exact shipped_number_parse_refuted. Qed.
+Lemma C06_shipped_roundtrip_hypothesis_false :
+  forall fmt_pieces, fmt_pieces (num_of_bits 0x433fffffffffffff) = tok_2p53m1 ->
+  ~ (forall x, is_finite x = true -> sj_float_of_tok (fmt_pieces x) = Some x).
+Proof. exact shipped_roundtrip_hypothesis_false. Qed.
+(* F31: the parser stops at 127 nested containers; the printer does not *)
+Lemma C06_recursion_limit_refuted :
+  json_from_str sj_float_of_tok (jprint no_tok (nest 127 (JArr []))) = None /\
+  json_from_str sj_float_of_tok (jprint no_tok (nest 126 (JArr []))) = Some (nest 126 (JArr [])).
+Proof. exact recursion_limit_refuted. Qed.
 
 (* ---- refutations: what the exclusions exclude (known findings C06-F16) ---- *)
 (* by the letter of the property's first sentence a record is data whatever its keys; the
